@@ -15,7 +15,8 @@ Driver of the BigInt model (ops prefixed `big`).
   bighmx <v> 8 a                 all b in 0..255       -> `hash exactCount`
   bighdx <v> 8 d hi              all lo in 0..255      -> `hash exactCount`
 
-op tokens: as:K:x ad:K:x sb:K:x or:K:x an:K:x mu:x dv:d sl:k sr:k lt:x le:x gt:x ge:x eq:x ne:x
+op tokens: as:K:x ad:K:x sb:K:x or:K:x an:K:x mu:x dv:d sl:k sr:k lt:x le:x gt:x ge:x eq:x ne:x (object OP x)
+           rlt:x rle:x rgt:x rge:x req:x rne:x (x OP object, the reversed friends)
            ib nz iz nu nw:K ff fl cl   and, with a second object t:  sv (t = x)  ld (x = t)  mv (x = move(t));
            the token of sv/ld/mv is `idx/words/_~idxT/wordsT`
 -/
@@ -37,6 +38,9 @@ def parseOp (t : String) : Option Op :=
       else if o == "lt" then some (.cmp .lt x) else if o == "le" then some (.cmp .le x)
       else if o == "gt" then some (.cmp .gt x) else if o == "ge" then some (.cmp .ge x)
       else if o == "eq" then some (.cmp .eq x) else if o == "ne" then some (.cmp .ne x)
+      else if o == "rlt" then some (.rcmp .lt x) else if o == "rle" then some (.rcmp .le x)
+      else if o == "rgt" then some (.rcmp .gt x) else if o == "rge" then some (.rcmp .ge x)
+      else if o == "req" then some (.rcmp .eq x) else if o == "rne" then some (.rcmp .ne x)
       else if o == "nw" then some (.narrow x) else none
   | [o, k, a] =>
     match k.toNat?, a.toNat? with
